@@ -158,10 +158,19 @@ def Header.WF (h : Header) : Bool :=
 start, not NUL and not `i` (every Go declaration keyword but `import`: const, func, type, var). -/
 def declStart (d : UInt8) : Bool := !isSpace d && d ≠ 47 && d ≠ 0 && d ≠ 105
 
-/-- What may follow the header: white space and comments, then end of input or a declaration.
-After a header without imports the package name must be separated from what follows. -/
+/-- What may follow the header: white space and comments `sp`, then `rest`, which is the end of
+input, or a final `//…` comment without newline, or a declaration (whose first byte is `declStart`).
+After a header without imports the package name must be separated from a following declaration. -/
 def TailOK (h : Header) (sp : Sp) (rest : Bytes) : Prop :=
-  sp.WF = true ∧ (rest = [] ∨ ∃ d tl, rest = d :: tl ∧ declStart d = true) ∧
-  (h.decls = [] → sp = [] → rest = [])
+  sp.WF = true ∧
+  (rest = [] ∨
+   (∃ body, rest = 47 :: 47 :: body ∧ noNul body = true ∧ body.all (· ≠ 10) = true) ∨
+   (∃ d tl, rest = d :: tl ∧ declStart d = true ∧ (h.decls = [] → sp ≠ [])))
+
+/-- the part of `rest` ReadImports still returns: a final comment is read to the end of input, a
+declaration is not touched. -/
+def keptTail : Bytes → Bytes
+  | 47 :: 47 :: body => 47 :: 47 :: body
+  | _ => []
 
 end GIV.C18
